@@ -20,8 +20,9 @@
      is < 0" (identical unless an entry is NaN); `x.powi(2)` is `x*x`; `norm(2)` of the right-hand
      side in the solver (`powf`) is `sqrt(sum x*x)` (few-ulp difference: compared with tolerance);
    - `pitr` only takes the values 0 and pcgmaxi: the model keeps the boolean `pitr == 0`;
-   - the backtracking line search tries exactly 100 steps (after the repair bdb775f) and fails with
-     Err("Exceeded maximum number of iteration ...") = None when none is accepted. *)
+   - the backtracking line search tries exactly 100 steps (repair bdb775f); when none is accepted it
+     keeps the iterate (null step) if the direction is finite and fails with
+     Err("Exceeded maximum number of iteration ...") = None otherwise (repair e30c76a). *)
 From Coq Require Import List ZArith Bool.
 From SC Require Import Base.Num.
 Import ListNotations.
@@ -203,10 +204,13 @@ Section Model.
       | None => line_search fuel' X yc lam t w u dx du phi gdx (mul c_beta s)
       end
     end.
-  (* `let max_ls_iter = 100; while lsiter < max_ls_iter { try s; s = beta*s; lsiter += 1 }` then
-     `if lsiter == max_ls_iter { return Err }` (repair bdb775f: the counter is now incremented):
-     exactly 100 trial steps 1, 1/2, ..., 2^-99; out of fuel = Err = None *)
+  (* `let max_ls_iter = 100; while lsiter < max_ls_iter { try s; s = beta*s; lsiter += 1 }`
+     (repair bdb775f: the counter is now incremented): exactly 100 trial steps 1, 1/2, ..., 2^-99.
+     When all are rejected (repair e30c76a): `gdx` and `phi` finite => the null step (s = 0, iterate
+     kept) and the outer loop goes on; otherwise Err = None.  `is_finite x` is `x - x == 0`
+     (false exactly for +-inf and NaN; always true over R). *)
   Definition ls_fuel : nat := 100.
+  Definition is_finite (x : T) : bool := O.(oeqb) (sub x x) zero.
 
   (* ---------- one outer iteration ---------- *)
   Record ipstate := mkst { st_w : list T; st_u : list T; st_dobj : T; st_t : T; st_s : T;
@@ -238,7 +242,11 @@ Section Model.
         let phi := phi_of X yc lam t (st_w st) (st_u st) in
         let gdx := dot (nw_grad nw) dxu in
         match line_search ls_fuel X yc lam t (st_w st) (st_u st) dx du phi gdx one with
-        | None => IpFail
+        | None =>
+          if is_finite gdx && is_finite phi then
+            IpNext {| st_w := st_w st; st_u := st_u st; st_dobj := g_dobj g; st_t := t; st_s := zero;
+                      st_pitr0 := pitr0'; st_dxu := dxu |}
+          else IpFail
         | Some (s, neww, newu) =>
           IpNext {| st_w := neww; st_u := newu; st_dobj := g_dobj g; st_t := t; st_s := s;
                     st_pitr0 := pitr0'; st_dxu := dxu |}
